@@ -1,4 +1,8 @@
 mod c01;
+mod c03;
+mod c04;
+mod c07;
+mod aio;
 mod drive;
 mod spaces;
 
@@ -25,6 +29,9 @@ fn main() {
         let run = |case: &serde_json::Value| -> Vec<(String, String)> {
             match prop.as_str() {
                 "C01" => c01::replay(case),
+                "C03" => c03::replay(case),
+                "C04" => c04::replay(case),
+                "C07" => c07::replay(case),
                 _ => {
                     eprintln!("MACHINERY: no replay for {}", prop);
                     std::process::exit(2);
@@ -53,6 +60,9 @@ fn main() {
     }
     match a.check.as_str() {
         "C01" => c01::run(&a),
+        "C03" => c03::run(&a),
+        "C04" => c04::run(&a),
+        "C07" => c07::run(&a),
         "selfcheck" => {
             println!("ok");
         }
